@@ -14,7 +14,7 @@ import (
 func init() { Registry["C07"] = checkC07 }
 
 func checkC07(p *core.Prog, r *core.Report) {
-	r.Explanation = "Decides structural necessary conditions of restart recovery: (R1) the 64-byte log record: AofLock.Encode and Decode are inverse on every field byte, UpdateAofId rewrites exactly the id positions Encode uses, and Aof.lockAcked's direct reads (DbId, LockKey) hit the positions of that layout; (R2) every change of a persisted hold is logged: on every path of Lock/UnLock/doTimeOut/doExpried/DoAckLock/cancelWaitLock that removes a hold, changes its depth or updates its terms, the path tested the hold as not persisted, or pushes the matching log record before the shard mutex is released; (R3) the lazy persistence hook (AddExpried / AddMillisecondExpried) pushes only when the hold is not yet persisted and persistable, and AddExpried pushes one LOCK record per depth level (replay rebuilds depth from the number of records); (R4) the value blob of a record is written right after its record iff the record announces it (Aof.PushLock) and read before any skip (LoadAofFile); (R5) replayed records are marked FROM_AOF before they reach the engine, and the push functions return before logging a replayed command (no re-logging); (R6) the three places that interpret a record's remaining lifetime dispatch on the same unit flags. (R6) every list of log files built from FindAofFiles (start-up load, compaction, transfer) puts the snapshot before the append files - the list is the replay order. (R7) UnLock clears a hold's persisted mark only on paths that remove the hold (a partial release keeps it). (R8) a Lock object enters the pool (or leaves it) with its persisted mark cleared. NOT decided: numeric round-trip of remaining lifetime, rotation across files, equality of the recovered snapshot."
+	r.Explanation = "Decides structural necessary conditions of restart recovery: (R1) the 64-byte log record: AofLock.Encode and Decode are inverse on every field byte, UpdateAofId rewrites exactly the id positions Encode uses, and Aof.lockAcked's direct reads (DbId, LockKey) hit the positions of that layout; (R2) every change of a persisted hold is logged: on every path of Lock/UnLock/doTimeOut/doExpried/DoAckLock/cancelWaitLock that removes a hold, changes its depth or updates its terms, the path tested the hold as not persisted, or pushes the matching log record before the shard mutex is released; (R3) the lazy persistence hook (AddExpried / AddMillisecondExpried) pushes only when the hold is not yet persisted and persistable, and AddExpried pushes one LOCK record per depth level (replay rebuilds depth from the number of records); (R4) the value blob of a record is written right after its record iff the record announces it (Aof.PushLock) and read before any skip (LoadAofFile); (R5) replayed records are marked FROM_AOF before they reach the engine, and the push functions return before logging a replayed command (no re-logging); (R6) the three places that interpret a record's remaining lifetime dispatch on the same unit flags. (R6) every list of log files built from FindAofFiles (start-up load, compaction, transfer) puts the snapshot before the append files - the list is the replay order. (R7) UnLock clears a hold's persisted mark only on paths that remove the hold (a partial release keeps it). (R8) a Lock object enters the pool (or leaves it) with its persisted mark cleared. (R9) a hold's persistence mode (Lock.aofTime) is assigned from constants, its own request or the database default, never copied from another hold (one known finding: later holders of a shared key inherit the first holder's mode). NOT decided: numeric round-trip of remaining lifetime, rotation across files, equality of the recovered snapshot."
 	r.Assumptions = []string{"Go type checker and go/ssa are correct for /repo", "the layout extractor interprets all byte stores of the record codec (uninterpreted statements are reported)"}
 	c07R1(p, r)
 	c07R2(p, r)
@@ -25,6 +25,7 @@ func checkC07(p *core.Prog, r *core.Report) {
 	logFileOrderRule(p, r, "C07/R6")
 	c07R7(p, r)
 	c07R8(p, r)
+	c07R9(p, r)
 }
 
 func fieldLoadPred(fn *ssa.Function, typ, field string) func(ssa.Value) bool {
@@ -588,4 +589,92 @@ func c07R8(p *core.Prog, r *core.Report) {
 	default:
 		r.Violate(rule, key, badPos, "a Lock goes into the free pool without isAof cleared (in "+strings.Join(badPut, ", ")+") and the reuse path does not clear it either: a replayed hold freed during start-up leaves the mark set, the next hold that recycles the object is taken for already persisted and is never written to the log", badPath)
 	}
+}
+
+// c07R9: "every hold taken with the persist-immediately flag counts as
+// persisted; holds taken with the never-persist flag are not restored" is per
+// hold, so the persistence mode of a hold (Lock.aofTime: 0 = at once, 0xff =
+// never, n = after n seconds) has to come from that hold's own request (or the
+// database default), never from another hold.
+func c07R9(p *core.Prog, r *core.Report) {
+	const rule = "C07/R9"
+	r.Rule(rule, "a hold's persistence mode (Lock.aofTime) is assigned from constants, its own request or the database default - never copied from another hold's mode", 5)
+	isLoadOf := fieldLoadPred(nil, "server.Lock", "aofTime")
+	var derives func(v ssa.Value, depth int) bool
+	derives = func(v ssa.Value, depth int) bool {
+		if depth > 6 {
+			return false
+		}
+		if isLoadOf(v) {
+			return true
+		}
+		switch x := v.(type) {
+		case *ssa.Convert:
+			return derives(x.X, depth+1)
+		case *ssa.BinOp:
+			return derives(x.X, depth+1) || derives(x.Y, depth+1)
+		case *ssa.Phi:
+			for _, e := range x.Edges {
+				if derives(e, depth+1) {
+					return true
+				}
+			}
+		}
+		return false
+	}
+	n := 0
+	for _, f := range p.FuncsIn("server") {
+		if f.Blocks == nil {
+			continue
+		}
+		ord := 0
+		for _, b := range f.Blocks {
+			for _, ins := range b.Instrs {
+				st, ok := ins.(*ssa.Store)
+				if !ok {
+					continue
+				}
+				fa, ok := st.Addr.(*ssa.FieldAddr)
+				if !ok {
+					continue
+				}
+				if k := core.FieldKeyOf(fa.X.Type(), fa.Field); k.Type != "server.Lock" || k.Field != "aofTime" {
+					continue
+				}
+				ord++
+				n++
+				key := fmt.Sprintf("%s: store server.Lock.aofTime#%d", core.FuncName(f), ord)
+				if derives(st.Val, 0) {
+					key = fmt.Sprintf("%s: mode copied from %s", core.FuncName(f), c07Desc(st.Val, 0))
+					r.Violate(rule, key, p.InstrPos(ins), "the hold's persistence mode is copied from another hold (the key's current holder): on a shared key a later holder taken with the persist-immediately flag is never logged, one taken with the never-persist flag is logged and restored", nil)
+				} else {
+					r.Hold(rule, key, p.InstrPos(ins), "mode from constants / own request / database default")
+				}
+			}
+		}
+	}
+	if n == 0 {
+		r.Fail("C07/R9: no store to Lock.aofTime found")
+	}
+}
+
+// c07Desc names a loaded field path (self.currentLock.aofTime) for obligation keys.
+func c07Desc(v ssa.Value, depth int) string {
+	if depth > 8 {
+		return "?"
+	}
+	switch x := v.(type) {
+	case *ssa.UnOp:
+		return c07Desc(x.X, depth+1)
+	case *ssa.Convert:
+		return c07Desc(x.X, depth+1)
+	case *ssa.FieldAddr:
+		k := core.FieldKeyOf(x.X.Type(), x.Field)
+		return c07Desc(x.X, depth+1) + "." + k.Field
+	case *ssa.Parameter:
+		return x.Name()
+	case *ssa.BinOp:
+		return c07Desc(x.X, depth+1) + x.Op.String() + c07Desc(x.Y, depth+1)
+	}
+	return "?"
 }
